@@ -89,13 +89,13 @@ def h_blocking(code: int) -> bool:
     pre: 0 <= code < CODEMAX
     post: _
     """
-    nd = NDCode(code)
-    kind = ('imap', 'imapu')[PART % 2]
-    n = (PART // 2) % (NMAX + 1)
-    p_size = 1 + nd.draw(0, 1)
-    k = nd.draw(0, n)
-    bad = 0 if k == n else (1 << k)
     try:
+        nd = NDCode(code)
+        kind = ('imap', 'imapu')[PART % 2]
+        n = (PART // 2) % (NMAX + 1)
+        p_size = 1 + nd.draw(0, 1)
+        k = nd.draw(0, n)
+        bad = 0 if k == n else (1 << k)
         return _blocking(kind, n, p_size, bad, nd)
     except Prune:
         return True
